@@ -12,6 +12,92 @@ from rules import protocol
 F_MIN = "trompeloeil::sequence_handler_base::min_calls"
 F_MAX = "trompeloeil::sequence_handler_base::max_calls"
 F_CNT = "trompeloeil::sequence_handler_base::call_count"
+HB = "trompeloeil::sequence_handler_base"
+
+
+def _leaves(tu, cq, seen=()):
+    """integral leaf fields of class cq (template-erased), looking into aggregate members: [(leaf name, path)]"""
+    out = []
+    for c in tu.cls_by_qe.get(cq, [])[:1]:
+        for f in c.get("fields", ()):
+            t = f["t"].replace("const ", "").strip()
+            if t in ("unsigned long", "unsigned int", "unsigned long long", "int", "long", "size_t"):
+                out.append(erase(f["q"]))
+            else:
+                tq = erase(t)
+                if tq in tu.cls_by_qe and tq not in seen:
+                    out.extend(_leaves(tu, tq, seen + (cq,)))
+    return out
+
+
+def _read_leaf(fn):
+    """the leaf field a trivial accessor returns"""
+    rets = [e.get("x") for b, e in fn.events() if e["e"] == "return"]
+    if len(rets) != 1:
+        return None
+    t = lib.strip_casts(rets[0])
+    return erase(t[1]) if isinstance(t, list) and t[:1] == ["member"] else None
+
+
+def roles(tu):
+    """(min, max, count) leaf fields of the handler, whatever they are called or however they are grouped: the
+    lower bound is what get_min_calls() returns, the count what get_calls() returns, the upper bound the one
+    integral field that is left.  -> dict F_MIN/F_MAX/F_CNT -> leaf name"""
+    cache = tu.__dict__.setdefault("_c03_roles", None)
+    if cache is not None:
+        return cache
+    leaves = _leaves(tu, HB)
+    lo = [_read_leaf(f) for f in tu.find(HB + "::get_min_calls")]
+    cn = [_read_leaf(f) for f in tu.find(HB + "::get_calls")]
+    if len(leaves) != 3 or not lo or not cn or lo[0] not in leaves or cn[0] not in leaves or lo[0] == cn[0]:
+        raise Unknown("the handler's (min, max, count) fields are not identified: integral fields %s, get_min_calls -> %s, "
+                      "get_calls -> %s" % (leaves, lo[:1], cn[:1]))
+    hi = [x for x in leaves if x not in (lo[0], cn[0])][0]
+    r = {F_MIN: lo[0], F_MAX: hi, F_CNT: cn[0]}
+    tu.__dict__["_c03_roles"] = r
+    return r
+
+
+def members(tu, lo, hi, c):
+    r = roles(tu)
+    return {r[F_MIN]: lo, r[F_MAX]: hi, r[F_CNT]: c}
+
+
+def role_stores(tu, effects):
+    """stores of an interpreted region, by role; a store of a whole aggregate is spread over its fields"""
+    r = roles(tu)
+    inv = {v: k for k, v in r.items()}
+    out = {}
+    for k, lv, v in effects:
+        if k != "store" or lv[0] != "member":
+            continue
+        f = erase(lv[1])
+        if f in inv:
+            out[inv[f]] = v
+            continue
+        # aggregate member: spread by declaration order
+        hit = False
+        for c in tu.cls_by_qe.get(HB, [])[:1]:
+            for fld in c.get("fields", ()):
+                if erase(fld["q"]) == f:
+                    sub = _leaves(tu, erase(fld["t"].replace("const ", "").strip()))
+                    vals = v if isinstance(v, tuple) else (v,)
+                    if sub and len(sub) == len(vals):
+                        for leaf, x in zip(sub, vals):
+                            out[inv.get(leaf, leaf)] = x
+                        hit = True
+        if not hit:
+            out[f] = v
+    return out
+
+
+def agg_assign(t, it):
+    """defaulted assignment of an aggregate: the left-hand side receives the right-hand side's value"""
+    from rules.common import _args
+    a = _args(t)
+    v = it.ev(a[1])
+    it.store(it.lval(a[0]), v)
+    return v
 
 
 def c03a(ctx, tu):
@@ -31,7 +117,7 @@ def c03a(ctx, tu):
                     if not care(v["c"], v["lo"], v["hi"]):
                         continue
                     rows += 1
-                    o = Oracle(members={F_MIN: v["lo"], F_MAX: v["hi"], F_CNT: v["c"]})
+                    o = Oracle(members=members(tu, v["lo"], v["hi"], v["c"]))
                     r = bool(ret_value(fn, o))
                     if r != bool(want(v["c"], v["lo"], v["hi"])):
                         bad = "count=%s min=%s max=%s gives %s" % (v["c"], v["lo"], "unbounded" if v["hi"] == MAXSZ else v["hi"], r)
@@ -40,6 +126,17 @@ def c03a(ctx, tu):
                 ctx.sample({"rule": "C03.a", "predicate": name, "spec": text, "rows_evaluated": rows})
             except Unknown as u:
                 ctx.ob("C03.a", name, None, pattern=fn.pat, unit=tu.name, detail="cannot interpret: %s" % u)
+
+
+def assign_calls(tu):
+    """implicit / defaulted assignment operators of the aggregates the handler's fields are grouped in"""
+    out = {}
+    for c in tu.cls_by_qe.get(HB, [])[:1]:
+        for fld in c.get("fields", ()):
+            tq = erase(fld["t"].replace("const ", "").strip())
+            if tq in tu.cls_by_qe:
+                out[tq + "::operator="] = agg_assign
+    return out
 
 
 def stores(effects):
@@ -54,10 +151,10 @@ def c03b(ctx, tu):
     # set_limits(L, H): min <- L, max <- H
     for fn in tu.need(A["set_limits"]):
         try:
-            o = Oracle(params={0: 5, 1: 7}, members={F_MIN: 1, F_MAX: 1, F_CNT: 0})
+            o = Oracle(params={0: 5, 1: 7}, members=members(tu, 1, 1, 0), calls=assign_calls(tu))
             it = Interp(fn, o)
             it.run()
-            st = stores(it.effects)
+            st = role_stores(tu, it.effects)
             ok = st.get(F_MIN) == 5 and st.get(F_MAX) == 7 and F_CNT not in st
             ctx.ob("C03.b", A["set_limits"], ok, pattern=fn.pat, unit=tu.name,
                    detail="" if ok else "set_limits(L,H) must store min<-L, max<-H and nothing else; it stores %s" % st)
@@ -68,10 +165,10 @@ def c03b(ctx, tu):
         try:
             bad = None
             for c in (0, 1, 5):
-                o = Oracle(members={F_MIN: 1, F_MAX: 9, F_CNT: c})
+                o = Oracle(members=members(tu, 1, 9, c), calls=assign_calls(tu))
                 it = Interp(fn, o)
                 it.run()
-                st = stores(it.effects)
+                st = role_stores(tu, it.effects)
                 if st != {F_CNT: c + 1}:
                     bad = "with count=%d it stores %s" % (c, st)
             ctx.ob("C03.d", A["increment_call"], bad is None, pattern=fn.pat, unit=tu.name,
@@ -83,9 +180,9 @@ def c03b(ctx, tu):
         if fn.rec.get("special") in ("copy_ctor", "move_ctor"):
             continue
         try:
-            it = Interp(fn, Oracle())
+            it = Interp(fn, Oracle(calls=assign_calls(tu)))
             it.run()
-            st = stores(it.effects)
+            st = role_stores(tu, it.effects)
             ok = st == {F_MIN: 1, F_MAX: 1, F_CNT: 0}
             ctx.ob("C03.b", "default limits", ok, pattern=fn.pat, unit=tu.name,
                    detail="" if ok else "an expectation without TIMES must have limits (min 1, max 1, count 0); found %s" % st)
